@@ -48,10 +48,12 @@ fn finds(log: &mut Log, t: &T, qs: &[(i64, i64)]) {
 
 /// replace the tree by a copy of itself (clone / serde round trip / clone_from into a used tree)
 fn copy(log: &mut Log, t: &mut T, how: u64) {
+    let mut eq = 1u8;
     log.call("copy", json!({"how": how % 3}), || {
         match how % 3 {
             0 => {
                 let c = t.clone();
+                eq = (c == *t) as u8;
                 *t = c;
             }
             1 => {
@@ -64,7 +66,7 @@ fn copy(log: &mut Log, t: &mut T, how: u64) {
                 *t = other;
             }
         }
-        json!({})
+        json!({"eq": eq})
     });
 }
 
